@@ -40,12 +40,13 @@ var quiet = func() *logrus.Logger { l := logrus.New(); l.SetOutput(io.Discard); 
 
 // what a generator is given
 type input struct {
-	Text    string   `json:"text"`              // Sysl source (or foreign spec for import)
-	Project string   `json:"project,omitempty"` // ints / datamodel project app
-	SeqProj string   `json:"seqproj,omitempty"`
-	Group   string   `json:"group,omitempty"`
-	Apps    []string `json:"apps,omitempty"` // app names in declaration order
-	Old     string   `json:"old,omitempty"`  // previous version (db delta)
+	Text    string            `json:"text"`              // Sysl source (or foreign spec for import)
+	Project string            `json:"project,omitempty"` // ints / datamodel project app
+	SeqProj string            `json:"seqproj,omitempty"`
+	Group   string            `json:"group,omitempty"`
+	Apps    []string          `json:"apps,omitempty"`  // app names in declaration order
+	Old     string            `json:"old,omitempty"`   // previous version (db delta)
+	Files   map[string]string `json:"files,omitempty"` // further source files next to m.sysl (imported by it)
 }
 
 type generator struct {
@@ -68,9 +69,14 @@ func canon(files map[string]string) string {
 	return sb.String()
 }
 
-func parseModel(text string) (*sysl.Module, error) {
+func parseModel(text string) (*sysl.Module, error) { return parseFiles(text, nil) }
+
+func parseFiles(text string, files map[string]string) (*sysl.Module, error) {
 	fs := afero.NewMemMapFs()
 	afero.WriteFile(fs, "m.sysl", []byte(text), 0o644)
+	for n, c := range files {
+		afero.WriteFile(fs, n, []byte(c), 0o644)
+	}
 	return parse.NewParser().ParseFromFs("m.sysl", fs)
 }
 
@@ -114,7 +120,9 @@ func pbSplit(mode string) func(m *sysl.Module, in *input) (string, error) {
 
 func sdGen(byApp bool, group bool) func(m *sysl.Module, in *input) (string, error) {
 	return func(m *sysl.Module, in *input) (string, error) {
-		p := &cmdutils.CmdContextParamSeqgen{EndpointFormat: "%(epname)", AppFormat: "%(appname)", BlackboxesFlag: map[string]string{}}
+		// the title refers to attributes, so that what MergeAttributes hands to the title formatter is visible
+		p := &cmdutils.CmdContextParamSeqgen{EndpointFormat: "%(epname)", AppFormat: "%(appname)", BlackboxesFlag: map[string]string{},
+			Title: "%(epname)|%(@owner)|%(@Zone)|%(@tier)|%(@cost)|%(@page)"}
 		if group {
 			p.Group = in.Group
 		}
